@@ -82,3 +82,21 @@ Theorem C10_link_local_v6 : forall b0 b1 r, List.length r = 14%nat -> (b1 < 256)
   is_link_local (b0 :: b1 :: r) = ((b0 =? 254) && (128 <=? b1) && (b1 <=? 191))%N.
 Proof. exact link_local_v6. Qed.
 Print Assumptions C10_link_local_v6.
+
+(* ---- the extractor closures themselves, from their statement-level translation (Gen/Src_ipextract.v, re-translated from ip.go
+   on every run): for every header content, peer, trust configuration and ParseIP they return the model's [real_ip_hdr] / [xff] -
+   the functions the theorems above are about.  ParseIP accepting no surrounding blanks is what lets the source's final
+   TrimSpace(ips[0]) be the cleaned left-most entry. *)
+From Coq Require Import ZArith.
+From Echo Require Import Base.GoLoop Gen.Src_ipextract Net.IpSrc.
+Theorem C10_source_realip_extractor : forall parse c xreal direct lines,
+  snd (GoLoop.run isym (ipred parse c direct) src_realip_extractor_results src_realip_extractor (start_r lines xreal)) =
+  [VS (real_ip_hdr parse c xreal direct)].
+Proof. exact IpSrc.C10_source_realip_extractor. Qed.
+Print Assumptions C10_source_realip_extractor.
+Theorem C10_source_xff_extractor : forall parse c lines xreal direct,
+  (forall s a, parse s = Some a -> trim_space s = s) ->
+  snd (GoLoop.run isym (ipred parse c direct) src_xff_extractor_results src_xff_extractor (start_x lines xreal)) =
+  [VS (xff parse c lines direct)].
+Proof. exact IpSrc.C10_source_xff_extractor. Qed.
+Print Assumptions C10_source_xff_extractor.
